@@ -1,7 +1,8 @@
 #!/bin/sh
 # seedall.sh : run every stored seeded change against its own property's quick check
+# (a few are caught by a neighbouring property's check instead: `caught_by` in meta.json)
 for d in /verif/seeded/C*; do
-  p=$(python3 -c "import json,sys; print(json.load(open(sys.argv[1]))['property'])" $d/meta.json)
+  p=$(python3 -c "import json,sys; m=json.load(open(sys.argv[1])); print(m.get('caught_by') or m['property'])" $d/meta.json)
   n=$(basename $d)
   git -C /repo apply $d/patch.diff 2>/dev/null || { echo "$n: patch does not apply"; continue; }
   out=$(cd /verif && ./check $p --tier quick 2>&1); rc=$?
